@@ -170,7 +170,11 @@ def listing(repo):
             ls = []
             with open(os.path.join(repo, n)) as f:
                 for line in f:
-                    fn, s, e, sm = line.split()
+                    try:
+                        fn, s, e, sm = line.split()
+                    except ValueError:
+                        ls.append('malformed')
+                        continue
                     b = os.path.basename(fn)
                     if b not in contents:
                         st = 'nofile'
@@ -486,8 +490,11 @@ class Run:
             return True
         if not ls:
             return True
-        _fn, s, e, sm = ls[-1].split()
-        s, e = int(s), int(e)
+        try:
+            _fn, s, e, sm = ls[-1].split()
+            s, e = int(s), int(e)
+        except ValueError:
+            return True
         if len(raw) < e or hashlib.md5(raw[s:e]).hexdigest() != sm:
             return True
         # what the chain's files (by the harness's own record of the chain) reproduce
@@ -530,6 +537,9 @@ class Run:
             n = new[0]
             full = DATA_RE.match(n).group(7).startswith('fs')
             c = read_content(os.path.join(self.repo, n))
+            if c is None:
+                self.violation('C18:backup-unreadable', 'backup file %s cannot be read back' % n)
+                c = b''
             obs = '%s %s %d %d' % ('full' if full else 'incr', model_name(n), len(c), fnv64(c))
             e = Entry(now, committed, full, n, bool(tail), self.pack_since_backup)
             if not full:
@@ -760,6 +770,12 @@ class Run:
         self.emit('save', 'ok')
         if kind == 'missing':
             self.emit('dmg del ' + model_name(n), 'ok')
+        elif not changed:
+            pass                                  # gzip container touched, content intact
+        elif not n.endswith('z') and kind == 'truncated':
+            self.emit('dmg trunc %s %d' % (model_name(n), arg), 'ok')
+        elif not n.endswith('z') and kind == 'altered':
+            self.emit('dmg flip %s %d %d' % (model_name(n), arg[0], arg[1]), 'ok')
         elif readable:
             self.emit('dmg set %s %s' % (model_name(n), hexs(new_content)), 'ok')
         try:
@@ -779,8 +795,8 @@ class Run:
             # recover after the damage: judged only when the damaged file is not used
             for w in (0, 1):
                 self.recover(None, w, 'o', 0, judge=(role == 'superseded-chain'), used_damaged=True)
-            if role == 'superseded-chain':
-                e = [x for x in self.held if x.fname == n][0]
+            e = next((x for x in self.held if x.fname == n), None)
+            if role == 'superseded-chain' and e is not None:
                 self.recover(dashed(e.t), 1, 'o', 0, judge=False, used_damaged=True)
         finally:
             with open(path, 'wb') as f:
@@ -809,6 +825,23 @@ def _worker(args):
     except Exception as e:       # harness trouble, not a verdict
         import traceback
         return dict(infra='%r\n%s' % (e, traceback.format_exc()))
+
+
+def drive(results, parallel):
+    """model observations for all cases: one driver process (quick), or a few over contiguous
+    chunks of whole cases (thorough; every case starts with `reset`)"""
+    chunks = [[] for _ in range(parallel)]
+    per = (len(results) + parallel - 1) // parallel
+    for i, res in enumerate(results):
+        chunks[i // per].append('reset')
+        chunks[i // per] += [op for op, _ in res['lines']]
+    chunks = [c for c in chunks if c]
+    if len(chunks) == 1:
+        return run_driver('Repozo', chunks[0], timeout=1500)
+    from concurrent.futures import ThreadPoolExecutor
+    with ThreadPoolExecutor(len(chunks)) as ex:
+        outs = list(ex.map(lambda c: run_driver('Repozo', c, timeout=1500), chunks))
+    return [l for o in outs for l in o]
 
 
 def corpus_cases():
@@ -849,7 +882,7 @@ def main(argv=None):
     ck.extra['modules'] = ['Props.C18', 'Drivers.Repozo']
     ck.run_gate(ck.extra['modules'], ['Props.C18'])
     import ZODB.scripts.repozo  # noqa: F401  (fail early, as an infra error, if the import breaks)
-    nscen = 200 if not ck.thorough else 1500
+    nscen = 160 if not ck.thorough else 1500
     final = dict(variants=2, max_damages=20) if not ck.thorough else dict(variants=3, max_damages=None)
     cases = []
     if ck.replay_path:
@@ -871,12 +904,7 @@ def main(argv=None):
     for res in results:
         if 'infra' in res:
             raise InfraError(res['infra'])
-    # model: one driver run over all cases
-    allops = []
-    for res in results:
-        allops.append('reset')
-        allops += [op for op, _ in res['lines']]
-    model_out = run_driver('Repozo', allops, timeout=1500)
+    model_out = drive(results, parallel=8 if ck.thorough else 1)
     pos = 0
     seen_sigs = set()
     for case, res in zip(cases, results):
